@@ -73,7 +73,9 @@ def fuzz_trace(rng, uni, mp, sets, name, steps=12):
             x = rng.choice([0, 1, q - 1, rng.randrange(q)])
             stream = mp.stream_for(g, x, redraws=rng.randrange(3), k=rng.randrange(3)) if rng.random() < 0.8 else \
                 rand_bytes(rng, 64 + 3 * G.scalar_size_bytes)
-            m = r.start(var, stream)
+            # one start() in eight meets an entropy function that raises (at the first request, or - integer groups
+            # with forced redraws - at a later one)
+            m = r.start(var, stream, fail_after=rng.randrange(2) if rng.random() < 0.125 else None)
             if m is not None:
                 msgs.append((m, cls, ps))
         elif op == "finish":
@@ -128,6 +130,8 @@ def lineage_trace(rng, uni, mp, ps, g, cls, name, steps=14):
     G = uni.group(g)
     q = G.order()
     r.new("v0", cls, ps, rng.choice(PWS), rng.choice(IDS), rng.choice(IDS) if cls != "S" else b"")
+    if rng.random() < 0.1:          # a first start() whose entropy function raises
+        r.start("v0", mp.stream_for(g, 1), fail_after=0)
     if rng.random() < 0.9:
         r.start("v0", mp.stream_for(g, rng.choice([0, 1, q - 1, rng.randrange(q)]), redraws=rng.randrange(2)))
     fam, blobs, n = ["v0"], [], 0
@@ -154,7 +158,7 @@ def lineage_trace(rng, uni, mp, ps, g, cls, name, steps=14):
             elif r.restore("v%d" % n, cls, ps, b) is not None:
                 fam.append("v%d" % n)
         elif op == "start":
-            r.start(var, mp.stream_for(g, rng.randrange(q)))
+            r.start(var, mp.stream_for(g, rng.randrange(q)), fail_after=0 if rng.random() < 0.2 else None)
         elif op == "finish":
             own = getattr(r.t.objs[r.inst[var]], "outbound_message", b"x")[1:]
             k = rng.randrange(6)
